@@ -92,6 +92,9 @@ def next_section(name="", report=MAIN_REPORT):
     old_submission = report[TOOL_NAME]['substitutions'][-1]
     report.stop_group(report[TOOL_NAME]['section_group'])
     report.submission.replace_main(old_submission.code, old_submission.filename)
+    # The offset of the section that is being left does not apply to what comes next
+    # (in particular not to the whole file, which stays when there is no further section)
+    report.submission.clear_line_offsets()
     # Advance to next section
     source['section'] += 2
     section_index = source['section']
